@@ -142,6 +142,12 @@ type noCopy struct{}
 func (*noCopy) Lock()   {}
 func (*noCopy) Unlock() {}
 
+// usable: the pool has a place in the table or can still get one. Pools beyond the table (pools inside short-lived objects
+// of the code under test) behave like a pool that never keeps anything - allowed by the contract, never a failure.
+//
+//go:norace
+func (p *Pool) usable() bool { return p.id != 0 || npools < MaxPools }
+
 //go:norace
 func (p *Pool) reg() int32 {
 	if p.id == 0 {
@@ -212,6 +218,12 @@ func decide(pid, kind, n int32) int32 {
 
 // Get returns a pooled instance chosen by the simulator, or New().
 func (p *Pool) Get() any {
+	if foreign() || !p.usable() {
+		if p.New != nil {
+			return p.New()
+		}
+		return nil
+	}
 	pid := p.reg()
 	n := poolLen(pid)
 	idx := decide(pid, KGet, n)
@@ -231,7 +243,7 @@ func (p *Pool) Get() any {
 
 // Put hands x back; the simulator decides whether the pool keeps it.
 func (p *Pool) Put(x any) {
-	if x == nil {
+	if x == nil || foreign() || !p.usable() {
 		return
 	}
 	pid := p.reg()
@@ -311,7 +323,36 @@ func lockPoint(kind int32, p *int32) {
 }
 
 //go:norace
-func scheduled() bool { return mode == 1 && cur >= 0 }
+func scheduled() bool { return mode == 1 && cur >= 0 && !foreign() }
+
+// Goroutines the code under test starts by itself are not tasks of the simulator: the unchanged library starts none, an
+// edited one may (a read-ahead, a background flush). Whatever such a goroutine does with package sync is done with the
+// real primitives, a pool gives it a new object and drops what it puts back (both allowed by sync.Pool's contract), and
+// it never talks to the controller - whose protocol knows one goroutine per task. The harness supplies the way to tell
+// goroutines apart (SetGoidFn); without it every caller is taken for the task in charge, as before.
+var (
+	goidFn   func() int64
+	taskGoid [MaxTasks]int64
+	seqGoid  int64
+)
+
+// SetGoidFn is called once by the harness, on the goroutine that drives the sequential checks and the controller.
+func SetGoidFn(f func() int64) {
+	goidFn = f
+	seqGoid = f()
+}
+
+//go:norace
+func foreign() bool {
+	if goidFn == nil {
+		return false
+	}
+	g := goidFn()
+	if mode == 1 && cur >= 0 {
+		return g != taskGoid[cur]
+	}
+	return g != seqGoid
+}
 
 // Mutex is a real mutex that, in scheduled mode, is only ever locked when the controller
 // knows it to be free: the real Lock never blocks, but the race detector sees the real
@@ -539,6 +580,9 @@ func SetScheduled(on bool) {
 //
 //go:norace
 func TaskPark(id int32) {
+	if goidFn != nil {
+		taskGoid[id] = goidFn()
+	}
 	var w [1]byte
 	rawRead(taskR[id], &w[0], 1)
 }
